@@ -228,7 +228,7 @@ def validate_traces(
         chunk = traces[b0 : b0 + batch]
         work = BUILD / f"traces-{tag}-{os.getpid()}-{b0}.json"
         work.parent.mkdir(parents=True, exist_ok=True)
-        work.write_text(json.dumps(chunk))
+        work.write_text(json.dumps(_no_null(chunk)))
         cfg = (
             f"INIT {init}\nNEXT {next_}\nPOSTCONDITION Post\nCHECK_DEADLOCK FALSE\n" + cfg_extra
         )
@@ -265,6 +265,17 @@ def validate_traces(
 
 
 # --------------------------------------------------------------------------------------
+
+
+def _no_null(x):
+    """TLC's Json module cannot read null: spell it as the string "__none__"."""
+    if x is None:
+        return "__none__"
+    if isinstance(x, dict):
+        return {k: _no_null(v) for k, v in x.items()}
+    if isinstance(x, (list, tuple)):
+        return [_no_null(v) for v in x]
+    return x
 
 
 def _errtail(out: str) -> str:
